@@ -313,6 +313,12 @@ func (cd *ConfigManager) Commit(id conf.SessionID) error {
 		}
 
 		if err := cd.reloadFRR(sess.config); err != nil {
+			// frr-reload applies its diff line by line: a failed reload can leave
+			// the daemon on part of the candidate. Put it back on the running
+			// configuration before the handlers are rolled back.
+			if rerr := cd.reloadFRR(cd.runningConfig); rerr != nil {
+				cd.logger.Error("Failed to restore FRR configuration after failed reload", "error", rerr)
+			}
 			cd.rollbackChanges(appliedChanges)
 			return fmt.Errorf("FRR reload failed: %w", err)
 		}
